@@ -463,7 +463,21 @@ func (r Rule) splitPos(path string) int {
 	if httpserver.CaseSensitivePath {
 		return strings.Index(path, r.SplitPath)
 	}
-	return strings.Index(strings.ToLower(path), strings.ToLower(r.SplitPath))
+	return indexFold(path, r.SplitPath)
+}
+
+// indexFold returns the byte index in s of the first case-insensitive
+// occurrence of substr, or -1. The index refers to s itself: lower-casing s
+// first and searching the copy is not equivalent, because case mapping can
+// change the byte length of non-ASCII characters.
+func indexFold(s, substr string) int {
+	n := len(substr)
+	for i := 0; i+n <= len(s); i++ {
+		if strings.EqualFold(s[i:i+n], substr) {
+			return i
+		}
+	}
+	return -1
 }
 
 // AllowedPath checks if requestPath is not an ignored path.
